@@ -149,6 +149,14 @@ except IOError:
 return False
 '''
 
+IDENT = '''
+# the INCLUDE pre-pass runs on every text (expand_includes is the default): a text without INCLUDE directives comes out unchanged,
+# whatever characters its strings contain (form feed, CR, NEL, U+2028 ... are not line breaks for the pre-pass)
+s = {S}
+text = "MAP" + nl + '  NAME "' + s + '"' + nl + "  # include nothing" + nl + "END"
+return StubParser().load_includes(text, fn="/r/root.map") == text and StubParser().load_includes(text) == text
+'''
+
 KEEP = '''
 # expand_includes=False: directives are kept as data, in order, and written back unchanged
 s1 = {S1}; s2 = {S2}
@@ -251,6 +259,14 @@ def obligations(tier, seed):
                   meta={"desc": "missing file -> IOError", "functions": ["Parser.load_includes"]}))
     obs.append(Ob(name="C15-PARSE", source=PRELUDE + harness("h", [("exp", "bool")], "", PARSE), pct=200, timeout=300,
                   meta={"desc": "parse() hands the expanded text to the parser iff expand_includes", "functions": ["Parser.parse"]}))
+    for L in ((1, 2) if tier == "quick" else (1, 2, 3)):
+        cs = chars("c", L)
+        pre = conj([f"({n} >= 1) & ({n} < 0x3000) & ({n} != 10)" for n, _ in cs])
+        for nl, nm in (("\n", "lf"), ("\r\n", "crlf")):
+            src = PRELUDE + f"nl = {nl!r}\n" + harness("h", cs, pre, IDENT.format(S=chr_expr("c", L)))
+            obs.append(Ob(name=f"C15-IDENT/{nm}.L{L}", source=src, pct=600, timeout=700,
+                          meta={"desc": f"load_includes is the identity on INCLUDE-free text whose string holds {L} arbitrary code points (1..0x2FFF except LF), {nm} line ends",
+                                "functions": ["Parser.load_includes"]}))
     for L1, L2 in ((1, 3), (3, 1)) if tier == "quick" else ((1, 1), (1, 3), (3, 1), (2, 4), (5, 2)):
         cs = chars("a", L1) + chars("b", L2)
         src = PRELUDE + KEEP_PRE + harness("h", cs, conj([f"okc({n})" for n, _ in cs]), KEEP.format(S1=chr_expr("a", L1), S2=chr_expr("b", L2)))
